@@ -235,6 +235,10 @@ class G:
         extra_cols = []
         if self.p("p_extra_cols", 0.3):
             extra_cols = [f"e{j}" for j in range(self.integer(1, 2))]
+            if self.P.get("extra_col_names") and self.p("_", 0.4):
+                extra_cols = [self.pick(self.P["extra_col_names"])]
+            if self.P.get("p_tag_names", 0) and self.p("p_tag_names"):
+                extra_cols = [self.pick(["item", "text", "root", "group", "input", "instance"])]
         media = self.p("p_choice_media", 0.15)
         translated = bool(self.langs) and self.p("p_translate_choices", 0.6)
         for i in range(k):
